@@ -194,9 +194,9 @@ class OptionKey:
 
     def __lt__(self, other: object) -> bool:
         if isinstance(other, OptionKey):
-            if self.subproject is None:
-                return other.subproject is not None
-            elif other.subproject is None:
+            if self.subproject is None and other.subproject is not None:
+                return True
+            elif self.subproject is not None and other.subproject is None:
                 return False
             return self._to_tuple() < other._to_tuple()
         return NotImplemented
@@ -212,9 +212,9 @@ class OptionKey:
 
     def __gt__(self, other: object) -> bool:
         if isinstance(other, OptionKey):
-            if other.subproject is None:
-                return self.subproject is not None
-            elif self.subproject is None:
+            if self.subproject is not None and other.subproject is None:
+                return True
+            elif self.subproject is None and other.subproject is not None:
                 return False
             return self._to_tuple() > other._to_tuple()
         return NotImplemented
